@@ -50,6 +50,7 @@ fn run_property(id: &str, ctx: &RunCtx) -> bool {
         "C10" => typeprops::run_c10(ctx),
         "C11" => c11::run(ctx),
         "C15" => lexprops::run_c15(ctx),
+        "C18" => fsprops::run_c18(ctx),
         "C19" => c19::run(ctx),
         "C20" => c20::run(ctx),
         _ => return false,
@@ -81,7 +82,27 @@ fn replay_input(id: &str, v: &Value) -> Result<Vec<Failure>, String> {
         }
         "C20" => c20::replay_types(v),
         "C15" => lexprops::replay_c15(v),
-        "C11" => c11::replay(v),
+        "C11" => {
+            if v["input"]["arrangement"].is_string() || (v["choices"].is_array() && v["check"].as_str() == Some("include-arrangement")) {
+                fsprops::replay_arrangement("C11:", v)
+            } else {
+                c11::replay(v)
+            }
+        }
+        "C18" => {
+            if v["choices"].is_array() {
+                fsprops::replay_arrangement("C18:", v)
+            } else {
+                let s = source.ok_or("replay file has neither choices nor input.source")?;
+                let mut out = vec![];
+                if pipeline::clean_parse(s) {
+                    if let Err(p) = pipeline::analyze(s) {
+                        out.push(Failure::new(format!("C18:{}", panic_key(&p)), serde_json::json!({"input": {"source": s}})));
+                    }
+                }
+                Ok(out)
+            }
+        }
         "C03" => pipeline::replay_c03(v),
         "C06" | "C07" | "C13" => {
             if v["choices"].is_array() {
